@@ -12,6 +12,7 @@ import (
 	"regexp"
 	"sort"
 	"strings"
+	"verifsim/core"
 
 	"cuelabs.dev/go/oci/ociregistry"
 	"github.com/opencontainers/go-digest"
@@ -312,6 +313,9 @@ func collect[T any](seq ociregistry.Seq[T], stopAfter int, between func()) (item
 // Exec runs op against r. Readers are drained and closed; listings are consumed.
 func Exec(ctx context.Context, r ociregistry.Interface, op *Op, h *Handles) (res *Res) {
 	res = &Res{}
+	// (in a scenario without a scheduler: what the operation leaves running in the
+	// background belongs to it, and has ended when Exec returns)
+	defer core.Settle()
 	switch op.Kind {
 	case GetBlob, GetBlobRange, GetManifest, GetTag:
 		var br ociregistry.BlobReader
